@@ -72,6 +72,42 @@ def f64x3Field : VField (BitVec 64 × BitVec 64 × BitVec 64) where
   mulBase := fun a b => Gen.F64.ext3MulBase F64.baseOps a (Gen.F64.new (BitVec.ofNat 64 b))
   exp := fun x n => expVartime F64.cube x n
 
+def f62Field : VField (BitVec 64) where
+  ops := F62.baseOps
+  ofCanon := fun a => Gen.F62.new (BitVec.ofNat 64 a.head!)
+  toCanon := fun x => [(Gen.F62.as_int x).toNat]
+  mulBase := fun a b => Gen.F62.mul a (Gen.F62.new (BitVec.ofNat 64 b))
+  exp := fun x n => expVartime F62.baseOps x n
+
+def f62x2Field : VField (BitVec 64 × BitVec 64) where
+  ops := F62.quad
+  ofCanon := fun a => (Gen.F62.new (BitVec.ofNat 64 a.head!), Gen.F62.new (BitVec.ofNat 64 (a.getD 1 0)))
+  toCanon := fun x => [(Gen.F62.as_int x.1).toNat, (Gen.F62.as_int x.2).toNat]
+  mulBase := fun a b => Gen.F62.ext2MulBase F62.baseOps a (Gen.F62.new (BitVec.ofNat 64 b))
+  exp := fun x n => expVartime F62.quad x n
+
+def f62x3Field : VField (BitVec 64 × BitVec 64 × BitVec 64) where
+  ops := F62.cube
+  ofCanon := fun a => (Gen.F62.new (BitVec.ofNat 64 a.head!), Gen.F62.new (BitVec.ofNat 64 (a.getD 1 0)),
+    Gen.F62.new (BitVec.ofNat 64 (a.getD 2 0)))
+  toCanon := fun x => [(Gen.F62.as_int x.1).toNat, (Gen.F62.as_int x.2.1).toNat, (Gen.F62.as_int x.2.2).toNat]
+  mulBase := fun a b => Gen.F62.ext3MulBase F62.baseOps a (Gen.F62.new (BitVec.ofNat 64 b))
+  exp := fun x n => expVartime F62.cube x n
+
+def f128Field : VField (BitVec 128) where
+  ops := F128.baseOps
+  ofCanon := fun a => Gen.F128.new (BitVec.ofNat 128 a.head!)
+  toCanon := fun x => [x.toNat]
+  mulBase := fun a b => Gen.F128.mul a (Gen.F128.new (BitVec.ofNat 128 b))
+  exp := fun x n => expVartime F128.baseOps x n
+
+def f128x2Field : VField (BitVec 128 × BitVec 128) where
+  ops := F128.quad
+  ofCanon := fun a => (Gen.F128.new (BitVec.ofNat 128 a.head!), Gen.F128.new (BitVec.ofNat 128 (a.getD 1 0)))
+  toCanon := fun x => [x.1.toNat, x.2.toNat]
+  mulBase := fun a b => Gen.F128.ext2MulBase F128.baseOps a (Gen.F128.new (BitVec.ofNat 128 b))
+  exp := fun x n => expVartime F128.quad x n
+
 def parseElems (ws : List String) : Option (List (List Nat)) := ws.mapM parseNatList
 
 /-- `c10 <field> <op> <elem>...`  (elements: comma-separated canonical coefficients)
@@ -107,11 +143,16 @@ def handleFields : List String → String
         | "f64s" => runOp (specField Spec.f64) op es
         | "f64x2s" => runOp (specField Spec.f64x2) op es
         | "f64x3s" => runOp (specField Spec.f64x3) op es
-        | "f62" => runOp (specField Spec.f62) op es
-        | "f62x2" => runOp (specField Spec.f62x2) op es
-        | "f62x3" => runOp (specField Spec.f62x3) op es
-        | "f128" => runOp (specField Spec.f128) op es
-        | "f128x2" => runOp (specField Spec.f128x2) op es
+        | "f62" => runOp f62Field op es
+        | "f62x2" => runOp f62x2Field op es
+        | "f62x3" => runOp f62x3Field op es
+        | "f128" => runOp f128Field op es
+        | "f128x2" => runOp f128x2Field op es
+        | "f62s" => runOp (specField Spec.f62) op es
+        | "f62x2s" => runOp (specField Spec.f62x2) op es
+        | "f62x3s" => runOp (specField Spec.f62x3) op es
+        | "f128s" => runOp (specField Spec.f128) op es
+        | "f128x2s" => runOp (specField Spec.f128x2) op es
         | _ => none
       res.getD "bad-op"
   | _ => "bad-op"
